@@ -8,6 +8,7 @@ import FlooVerif.Check2
 import FlooVerif.Check3
 import FlooVerif.Gen.HwFacts
 import FlooVerif.Gen.PyFacts
+import FlooVerif.Model.Emit
 open Lean FlooVerif
 
 def jStrList (j : Json) : Except String (List String) := do
@@ -21,6 +22,30 @@ def checkers : List (String × (Desc → Net → List Finding)) :=
   [("C01", C01.check), ("C02", C02.check), ("C03", C03.check), ("C04", C04.check), ("C05", C05.check),
    ("C06", C06.check), ("C07", C07.check), ("C08", C08.check), ("C09", C09.check),
    ("C11", C11.check Gen.hwFacts Gen.pyFacts), ("C13", C13.check), ("C14", C14.check)]
+
+def firstDiff (a b : List String) : Json :=
+  let rec go (i : Nat) : List String → List String → Json
+    | x :: xs, y :: ys => if x == y then go (i + 1) xs ys else
+        Json.mkObj [("at", i), ("model", Json.arr ((x :: xs).take 12 |>.map Json.str).toArray),
+                    ("impl", Json.arr ((y :: ys).take 12 |>.map Json.str).toArray)]
+    | [], [] => Json.null
+    | xs, ys => Json.mkObj [("at", i), ("model", Json.arr (xs.take 12 |>.map Json.str).toArray),
+                            ("impl", Json.arr (ys.take 12 |>.map Json.str).toArray)]
+  go 0 a b
+
+/-- run the Lean model of the generator and compare its token streams with the implementation's -/
+def modelCompare (d : Desc) (pkg top : Option (List String)) : Json :=
+  match Model.gen d with
+  | .error e => Json.mkObj [("status", "rejected"), ("cls", e.cls), ("msg", e.msg)]
+  | .ok (p, m) =>
+    let pt := p.render
+    let tt := m.render
+    match pkg, top with
+    | some pkg, some top =>
+      Json.mkObj [("status", "ok"), ("pkgEqual", pt == pkg), ("topEqual", tt == top),
+                  ("pkgDiff", if pt == pkg then Json.null else firstDiff pt pkg),
+                  ("topDiff", if tt == top then Json.null else firstDiff tt top)]
+    | _, _ => Json.mkObj [("status", "ok")]
 
 def handle (j : Json) : Except String Json := do
   let cmd ← (← j.getObjVal? "cmd").getStr?
@@ -46,7 +71,14 @@ def handle (j : Json) : Except String Json := do
       match checkers.find? (·.1 == pid) with
       | some (_, chk) => (pid, Json.arr ((chk d n).map findingJson).toArray)
       | none => (pid, Json.str "no such checker")
-    return Json.mkObj [("ok", true), ("findings", Json.mkObj res)]
+    let wantModel := (j.getObjValD "model").getBool?.toOption.getD false
+    let model := if wantModel then modelCompare d (some pkg) (some top) else Json.null
+    return Json.mkObj [("ok", true), ("findings", Json.mkObj res), ("model", model)]
+  | "model" =>
+    -- accept/reject decision of the model alone (the implementation rejected, or CLI-level checks)
+    match decodeDesc (← j.getObjVal? "desc") with
+    | .ok d => return Json.mkObj [("ok", true), ("model", modelCompare d none none)]
+    | .error e => return Json.mkObj [("ok", true), ("model", Json.mkObj [("status", "rejected"), ("cls", e.cls), ("msg", e.msg)])]
   | _ => throw s!"unknown cmd {cmd}"
 
 partial def loop (h : IO.FS.Stream) (out : IO.FS.Stream) : IO Unit := do
